@@ -16,13 +16,19 @@ use vcore::exec::{sequences, BackendCfg};
 use vcore::findings::{Reporter, SigBag};
 use vcore::{to_hash, Meta, Scratch};
 
-pub const VALUES: [&str; 16] = ["1", "2", "1.5", "1e1", "+1", "-0.0", "0", "inf", "-inf", "NaN", " 1", "", "é", "abc", "10", "LONG"];
+pub const VALUES: [&str; 18] = ["1", "2", "1.5", "1e1", "+1", "-0.0", "0", "inf", "-inf", "NaN", " 1", "", "é", "abc", "10", "LONG", "LONGNUM", "PADNUM"];
+const NV: usize = VALUES.len();
 
+/// LONG = 300 non-numeric bytes; LONGNUM = the 36-digit decimal literal of 1e35 (what
+/// format!("{}", 1e35_f64) prints); PADNUM = 7 zero-padded to 40 digits. The last two are numbers
+/// whatever their length, so they compare numerically against numeric bounds (and sort
+/// differently as strings: "000..07" < "1" < "2" but 7 > 2).
 fn val(i: usize) -> String {
-    if VALUES[i] == "LONG" {
-        "x".repeat(300)
-    } else {
-        VALUES[i].to_string()
+    match VALUES[i] {
+        "LONG" => "x".repeat(300),
+        "LONGNUM" => format!("1{}", "0".repeat(35)),
+        "PADNUM" => format!("{}7", "0".repeat(39)),
+        v => v.to_string(),
     }
 }
 
@@ -150,6 +156,7 @@ pub fn representative_leaves() -> Vec<F> {
         F::Range("b".into(), Some((2, "abc".into()))),
         F::Range("a".into(), Some((1, "inf".into()))),
         F::Range("b".into(), None),
+        F::Range("a".into(), Some((2, val(17)))),
     ]
 }
 
@@ -228,21 +235,21 @@ fn bcfg(cap: usize) -> BackendCfg {
 
 /// Wide collection: 17 docs covering every value class (and absence) for both keys.
 fn wide(b: &HnswBackend, model: &mut BTreeMap<u64, Meta>, shift: usize) {
-    for i in 0..17usize {
-        let a = if i < 16 { Some((i + shift) % 16) } else { None };
-        let bb = if (7 * i + 3 + shift) % 17 < 16 { Some((7 * i + 3 + shift) % 17) } else { None };
+    for i in 0..=NV {
+        let a = if i < NV { Some((i + shift) % NV) } else { None };
+        let bb = if (7 * i + 3 + shift) % (NV + 1) < NV { Some((7 * i + 3 + shift) % (NV + 1)) } else { None };
         let m = meta2(a, bb);
         b.insert(100 + i as u64, vec![i as f32, 1.0], to_hash(&m)).expect("insert");
         model.insert(100 + i as u64, m);
     }
     // the empty-map edge: a live document without any metadata, and one whose metadata is
     // emptied in place by a replace-with-{} update
-    b.insert(117, vec![17.0, 1.0], to_hash(&Meta::new())).expect("insert");
-    model.insert(117, Meta::new());
+    b.insert(150, vec![50.0, 1.0], to_hash(&Meta::new())).expect("insert");
+    model.insert(150, Meta::new());
     let m = meta2(Some(3), Some(4));
-    b.insert(118, vec![18.0, 1.0], to_hash(&m)).expect("insert");
-    b.update_metadata(118, to_hash(&Meta::new()), false).expect("update");
-    model.insert(118, Meta::new());
+    b.insert(151, vec![51.0, 1.0], to_hash(&m)).expect("insert");
+    b.update_metadata(151, to_hash(&Meta::new()), false).expect("update");
+    model.insert(151, Meta::new());
 }
 
 fn part_a(tier: &str, st: &mut Stats) {
@@ -265,16 +272,16 @@ fn part_a(tier: &str, st: &mut Stats) {
     }
     st.states.insert(1);
     // maintenance: overwrites with shifted metadata, merges, replaces, deletes, re-inserts
-    for i in 0..17u64 {
+    for i in 0..=(NV as u64) {
         let id = 100 + i;
         match i % 5 {
             0 => {
-                let m = meta2(Some(((i as usize) + 3) % 16), None);
+                let m = meta2(Some(((i as usize) + 3) % NV), None);
                 b.insert(id, vec![i as f32, 2.0], to_hash(&m)).unwrap();
                 model.insert(id, m);
             }
             1 => {
-                let m = meta2(None, Some(((i as usize) + 5) % 16));
+                let m = meta2(None, Some(((i as usize) + 5) % NV));
                 b.update_metadata(id, to_hash(&m), true).unwrap();
                 for (k, v) in m {
                     model.get_mut(&id).unwrap().insert(k, v);
@@ -303,7 +310,7 @@ fn part_a(tier: &str, st: &mut Stats) {
     st.states.insert(2);
     // force tombstone compaction: fill the index (capacity 64) with overwrites of one id
     for r in 0..60u64 {
-        let m = meta2(Some((r as usize) % 16), Some(((r as usize) * 3) % 16));
+        let m = meta2(Some((r as usize) % NV), Some(((r as usize) * 5) % NV));
         b.insert(100, vec![r as f32, 4.0], to_hash(&m)).unwrap();
         model.insert(100, m);
     }
@@ -336,13 +343,13 @@ fn part_a2(st: &mut Stats) {
             let mut model: BTreeMap<u64, Meta> = BTreeMap::new();
             // bystanders: one document per class
             for i in 0..VALUES.len() {
-                let m = meta2(Some(i), Some((i + 1) % 16));
+                let m = meta2(Some(i), Some((i + 1) % NV));
                 b.insert(300 + i as u64, vec![i as f32, 7.0], to_hash(&m)).unwrap();
                 model.insert(300 + i as u64, m);
             }
             for y in 0..=VALUES.len() {
-                let mx = meta2(if x < 16 { Some(x) } else { None }, Some(0));
-                let my = meta2(if y < 16 { Some(y) } else { None }, Some(0));
+                let mx = meta2(if x < NV { Some(x) } else { None }, Some(0));
+                let my = meta2(if y < NV { Some(y) } else { None }, Some(0));
                 let id = 200u64;
                 let _ = b.delete(id);
                 b.insert(id, vec![1.0, 1.0], to_hash(&mx)).unwrap();
@@ -616,7 +623,7 @@ pub fn run(tier: &str, replay: Option<&str>) -> i32 {
     ev.set("traces_validated_against_impl", tot.histories);
     ev.set("evaluations", tot.filter_evals + tot.deletes_checked);
     ev.set("distinct_nontrivial", tot.nonempty_selections);
-    ev.set("rule", "(A) every filter tree of depth <= 2 over all leaves (Exact/In/Range with 4 operators + missing bound over 16 value classes x keys {a,b}, empty forms; thorough: full pairing and depth 3 over representative leaves) on a 19-document collection covering every value class plus two documents with an EMPTY metadata map (inserted empty / emptied by replace), evaluated fresh, after overwrites/merges/replaces/deletes/re-inserts, after forced tombstone compaction and after snapshot+recovery; (A2) every ordered pair of value classes (and absence) as an in-place value transition of one document by merge / replace / overwrite / delete+reinsert, all leaves and their negations on that key afterwards; (B) all histories up to the depth over a 13-letter alphabet (incl. insert with empty metadata and replace-with-empty) on ids {1,2,3} with index capacity 3 (tombstone compaction) and restarts, every leaf + representative trees after each step; (C) every history up to the depth on TieredEngine (insert, bulk load bypassing the hot tier, metadata merge/replace, delete, drain) followed by batch_delete_by_metadata_filter for 6 filters: exact set removed, exact count returned. Oracle: independent reference evaluator (cross-checked against metadata_filter::matches on every pair). non-trivial = evaluations whose expected selection is non-empty");
+    ev.set("rule", "(A) every filter tree of depth <= 2 over all leaves (Exact/In/Range with 4 operators + missing bound over 18 value classes (incl. a 300-byte string and two numeric literals longer than 32 bytes) x keys {a,b}, empty forms; thorough: full pairing and depth 3 over representative leaves) on a 21-document collection covering every value class plus two documents with an EMPTY metadata map (inserted empty / emptied by replace), evaluated fresh, after overwrites/merges/replaces/deletes/re-inserts, after forced tombstone compaction and after snapshot+recovery; (A2) every ordered pair of value classes (and absence) as an in-place value transition of one document by merge / replace / overwrite / delete+reinsert, all leaves and their negations on that key afterwards; (B) all histories up to the depth over a 13-letter alphabet (incl. insert with empty metadata and replace-with-empty) on ids {1,2,3} with index capacity 3 (tombstone compaction) and restarts, every leaf + representative trees after each step; (C) every history up to the depth on TieredEngine (insert, bulk load bypassing the hot tier, metadata merge/replace, delete, drain) followed by batch_delete_by_metadata_filter for 6 filters: exact set removed, exact count returned. Oracle: independent reference evaluator (cross-checked against metadata_filter::matches on every pair). non-trivial = evaluations whose expected selection is non-empty");
     ev.set("samples", json!([{"filter": format!("{:?}", leaves()[40]), "values": VALUES}, {"filter": format!("{:?}", trees_depth2(&representative_leaves(), &representative_leaves())[7])}]));
     ev.set("exhaustive", true);
     ev.set("part_a_filter_evaluations", a_evals);
